@@ -220,6 +220,15 @@ var damages = []damage{
 		}
 		return append(append([]byte{}, s[:i]...), s[i+j:]...)
 	}},
+	{"line-directive", func(s []byte, r *rand.Rand) []byte {
+		// a //line directive in front of a random line (generated code: goyacc, cgo, stringer ...)
+		lines := bytes.Split(s, []byte("\n"))
+		i := r.Intn(len(lines))
+		n := []int{1, 7, 100, 5000, 100000}[r.Intn(5)]
+		d := []byte(fmt.Sprintf("//line gen.y:%d", n))
+		out := append(append(append([][]byte{}, lines[:i]...), d), lines[i:]...)
+		return bytes.Join(out, []byte("\n"))
+	}},
 	{"insert-garbage", func(s []byte, r *rand.Rand) []byte {
 		g := []string{"}", "{", ")", "(", "func", ";;", "@", "#", "case", ":=", "...", "<-", "\\", "'", "0x", "1e", "/*", "*/", "//", "\r", "\t"}
 		i := r.Intn(len(s) + 1)
@@ -233,6 +242,9 @@ var c15Fixed = [][]byte{
 	[]byte("package p\nimport \"a"), []byte("package p\n/*"), []byte("package p\nvar s = `"), []byte("\xEF\xBB\xBF"), []byte("\xEF\xBB\xBFpackage p\n"), []byte("package p\x00"),
 	[]byte("package p\n\nfunc f() {\n\tx := \n}\n"), []byte("package p\n\nfunc f() {\n\tif {\n}\n"), []byte("package p\n\ntype T struct {\n\ta int,\n}\n"),
 	[]byte("package p\n\nvar x = [...]int{1, 2,\n"), []byte("package p\n\nfunc (f() {}\n"), []byte("package p\n\nfunc f() { for ;; {} }}\n"),
+	[]byte("package a\n\n//line a.y:100\nfunc f() {\n\tg()\n}\n"), []byte("//line g.y:2\npackage a\n\nvar s = `x\ny`\n"),
+	[]byte("package a\n\n//line a.y:100000\n/* multi\nline */\nfunc f() {}\n"), []byte("package a\n\nfunc f() { /*line b.go:500:3*/ g() }\n"),
+	[]byte("package a\n\n//line a.y:7\nfunc f() {\n//line a.y:7\n\tg()\n//line a.y:3\n\th()\n}\n"), []byte("package a\n\n//line :0\nvar x = 1\n//line a.y:99\nvar y = `a\n"),
 	[]byte("package p // c\n// d"), []byte("//go:build x\n"), []byte("package p\n\nfunc f() {\n\tlabel:\n}\n"), []byte("package p\n\nfunc f() {\n\tgoto\n}\n"),
 }
 
